@@ -199,6 +199,11 @@ func mapRangeOrderFree(c *core.Ctx, info *types.Info, d *ast.FuncDecl, rs *ast.R
 						reasons = append(reasons, "store into a map")
 						continue
 					}
+					// `S[next] = v` with `next++` beside it: appending by hand, S collects
+					if o := pairedStore(info, rs.Body, st, lx); o != nil {
+						collected[o] = true
+						continue
+					}
 					bad = "stores into an indexed non-map location"
 				case *ast.Ident:
 					o := info.Defs[lx]
@@ -476,6 +481,63 @@ func isPure(c *core.Ctx, f *types.Func, depth int) bool {
 	return pure
 }
 
+// pairedStore: st is `S[i] = ...` where S and i are identifiers and the block that holds st also holds `i++`
+// (and no other statement mentions i on the left): the slice the values are collected into, or nil.
+func pairedStore(info *types.Info, body *ast.BlockStmt, st *ast.AssignStmt, lx *ast.IndexExpr) types.Object {
+	so := identObj(info, lx.X)
+	io := identObj(info, lx.Index)
+	if so == nil || io == nil {
+		return nil
+	}
+	if _, isSlice := so.Type().Underlying().(*types.Slice); !isSlice {
+		return nil
+	}
+	var found types.Object
+	ast.Inspect(body, func(n ast.Node) bool {
+		blk, ok := n.(*ast.BlockStmt)
+		if !ok {
+			return true
+		}
+		has, inc := false, 0
+		for _, x := range blk.List {
+			if x == ast.Stmt(st) {
+				has = true
+			}
+			if id, ok := x.(*ast.IncDecStmt); ok && id.Tok == token.INC && identObj(info, id.X) == io {
+				inc++
+			}
+		}
+		if has && inc == 1 {
+			found = so
+		}
+		return true
+	})
+	if found == nil {
+		return nil
+	}
+	// the counter is written nowhere else in the loop
+	writes := 0
+	ast.Inspect(body, func(n ast.Node) bool {
+		switch x := n.(type) {
+		case *ast.IncDecStmt:
+			if identObj(info, x.X) == io {
+				writes++
+			}
+		case *ast.AssignStmt:
+			for _, l := range x.Lhs {
+				if identObj(info, l) == io {
+					writes += 2
+				}
+			}
+		}
+		return true
+	})
+	if writes != 1 {
+		return nil
+	}
+	return found
+}
+
 // sortedBeforeUse: after the loop, the first statement of the enclosing block that
 // mentions the slice is a sort call on it (collect-then-sort).
 func sortedBeforeUse(c *core.Ctx, info *types.Info, d *ast.FuncDecl, rs *ast.RangeStmt, slice types.Object) (string, bool) {
@@ -546,14 +608,30 @@ func ruleSinkSort(c *core.Ctx) {
 		// comparator mentions all four keys
 		var cmp ast.Node = sortCall
 		need := map[string]bool{"File": false, "Line": false, "Column": false, "Message": false}
-		ast.Inspect(cmp, func(n ast.Node) bool {
-			if se, ok := n.(*ast.SelectorExpr); ok {
-				if _, ok := need[se.Sel.Name]; ok {
-					need[se.Sel.Name] = true
+		// the comparator may hand the work to helpers: follow module callees (three levels)
+		var scan func(n ast.Node, ninfo *types.Info, depth int)
+		visited := map[*types.Func]bool{}
+		scan = func(n ast.Node, ninfo *types.Info, depth int) {
+			ast.Inspect(n, func(n ast.Node) bool {
+				switch x := n.(type) {
+				case *ast.SelectorExpr:
+					if _, ok := need[x.Sel.Name]; ok {
+						if sel, isSel := ninfo.Selections[x]; isSel && sel.Kind() == types.FieldVal {
+							need[x.Sel.Name] = true
+						}
+					}
+				case *ast.CallExpr:
+					if f := core.Callee(ninfo, x); f != nil && core.InModule(f) && depth < 3 && !visited[f.Origin()] {
+						visited[f.Origin()] = true
+						if fd := c.Decl(f.Origin()); fd != nil && fd.Body != nil {
+							scan(fd.Body, c.DeclPkg(fd).TypesInfo, depth+1)
+						}
+					}
 				}
-			}
-			return true
-		})
+				return true
+			})
+		}
+		scan(cmp, info, 0)
 		var missing []string
 		for k, v := range need {
 			if !v {
